@@ -956,7 +956,7 @@ class OFXClient:
                 raise ValueError(
                     f"OFX version {version} requires ending tags for elements"
                 )
-            body = utils.tostring_unclosed_elements(tree)
+            body = utils.tostring_unclosed_elements(tree, close_empty=True)
         else:
             # ``method="html"`` skips the initial XML declaration
             body = ET.tostring(tree, encoding="utf_8", method="html")
